@@ -154,7 +154,7 @@ def parse_concentration(s, wv='g/mL'):
         if unit.endswith('m') and unit[:-1] in SI:
             return F(m.group(1)) * SI[unit[:-1]] / 1000, 'mol', 'g'     # mol per kg
         raise ValueError(f"malformed concentration {s!r}")
-    m = re.fullmatch(rf'({_NUM}) ?%(w/w|v/v|w/v)', s)
+    m = re.fullmatch(rf'({_NUM}) %(w/w|v/v|w/v)', s)
     if m:
         v = F(m.group(1)) / 100
         if m.group(2) == 'w/w':
